@@ -58,11 +58,9 @@ impl<'a> IntUnpacker<'a> {
     pub fn as_slice(&self) -> (r: &'a [i32]) ensures r@ == self.rest(), { unimplemented!() }
 }
 impl SnapHeader {
-    // format.rs: two `positive(p.read_int()?)?` fields
+    // format.rs: two `positive(p.read_int()?)?` fields -- shared contract, proved in unit snap_hdr
     #[verifier::external_body]
     pub fn decode_obj(p: &mut IntUnpacker) -> (r: Result<SnapHeader, Error>)
-        ensures
-            r is Ok ==> r->Ok_0.data_size >= 0 && r->Ok_0.num_items >= 0
-                && (*old(p)).rest().len() >= 2 && (*final(p)).rest() == (*old(p)).rest().skip(2),
+        //@contract snapshot::SnapHeader::decode_obj
     { unimplemented!() }
 }
